@@ -72,7 +72,15 @@ def oracle(ctx, seeds=None):
             else:
                 sch = ['muscl', str(rng.choice(LIMS))]; cfl = float(rng.choice([0.5, 0.4, rng.uniform(0.05, 0.5)])); integ = str(rng.choice(SSP))
         msh = cfg1d.make_mesh(md)
-        disc = impl.modeldisc.fvm(mod, msh, cfg1d.make_scheme(sch))
+        scheme_obj = cfg1d.make_scheme(sch)
+        if i % 4 == 1:
+            # the scheme object has already served a discretisation on ANOTHER mesh with the same number of cells
+            md0 = dict(md); md0['L'] = md.get('L', 1.0) * 10.0
+            if md0['kind'] == 'uni':
+                m0_ = cfg1d.make_mesh(md0)
+                d0_ = impl.modeldisc.fvm(mod, m0_, scheme_obj)
+                impl.guarded(lambda: d0_.rhs(impl.field.fdata(mod, m0_, [np.linspace(0.5, 1.5, n)])))
+        disc = impl.modeldisc.fvm(mod, msh, scheme_obj)
         scale = float(10.0 ** int(rng.choice([0, 0, 0, -12, -6, -9, 6])))   # the schemes are scale invariant: tiny and huge amplitudes too
         u0 = data(rng, n, kind, burg) * scale
         nsteps = int(rng.integers(1, 12))
